@@ -72,6 +72,9 @@ func (r *recorder) fn(tag string, ph walk.Phase) visitor.VisitFunc {
 		if r.policy != nil {
 			o.Ret = r.policy(n, ph, r.idx)
 		}
+		if r.evs == nil {
+			r.evs = make([]obs, 0, 256)
+		}
 		r.evs = append(r.evs, o)
 		return actionString(o.Ret), nil
 	}
